@@ -317,3 +317,158 @@ func fieldNamed(fn *ssa.Function, typ, name string) *types.Var {
 	}
 	return nil
 }
+
+func init() {
+	register(&Rule{ID: "PS.pair", Min: 3, Text: "no leaked subscription in the RPC layer: every function of server/rpc that (through its helpers) subscribes to the pub/sub and owns the subscription registers, before any other exit, a deferred function that reaches PubSub.Unsubscribe/UnsubscribeChannel — between the subscribing call and the defer only the subscribing call's own error edge returns; a helper that subscribes several resources unsubscribes the ones it already has on every error exit",
+		Run: func(x *Ctx) {
+			sub := []*types.Func{x.P.FnObj(psPkg + ".(*PubSub).Subscribe"), x.P.FnObj(psPkg + ".(*PubSub).SubscribeChannel")}
+			unsub := []*types.Func{x.P.FnObj(psPkg + ".(*PubSub).Unsubscribe"), x.P.FnObj(psPkg + ".(*PubSub).UnsubscribeChannel")}
+			for _, o := range append(sub, unsub...) {
+				if o == nil {
+					x.C.Unresolved(x.id(), "PubSub.Subscribe*/Unsubscribe*")
+					return
+				}
+			}
+			reachesAny := func(fn *ssa.Function, objs []*types.Func) bool {
+				for _, o := range objs {
+					if x.reaching(o)[fn] {
+						return true
+					}
+				}
+				return false
+			}
+			callsReachingAny := func(fn *ssa.Function, objs []*types.Func) []ssa.CallInstruction {
+				var out []ssa.CallInstruction
+				seen := map[ssa.CallInstruction]bool{}
+				for _, o := range objs {
+					for _, c := range x.callsReaching(fn, o) {
+						if !seen[c] {
+							seen[c] = true
+							out = append(out, c)
+						}
+					}
+				}
+				return out
+			}
+			owners := 0
+			for _, fn := range x.P.FuncsIn("server/rpc") {
+				if fn.Parent() != nil {
+					continue
+				}
+				var subs []ssa.CallInstruction
+				for _, c := range callsReachingAny(fn, sub) {
+					if _, isDefer := c.(*ssa.Defer); !isDefer {
+						subs = append(subs, c)
+					}
+				}
+				if len(subs) == 0 {
+					continue
+				}
+				k := "func=" + prog.FnName(fn)
+				// the deferred unsubscribe
+				var dfr *ssa.Defer
+				for _, c := range prog.CallsIn(fn) {
+					d, ok := c.(*ssa.Defer)
+					if !ok {
+						continue
+					}
+					var body *ssa.Function
+					switch t := prog.Strip(d.Call.Value).(type) {
+					case *ssa.MakeClosure:
+						body, _ = t.Fn.(*ssa.Function)
+					case *ssa.Function:
+						body = t
+					}
+					if body != nil && reachesAny(body, unsub) {
+						dfr = d
+					}
+				}
+				if dfr != nil {
+					owners++
+					for i, s := range subs {
+						sc, isCall := s.(*ssa.Call)
+						ok := prog.Dominates(s, dfr)
+						x.check(ok, fmt.Sprintf("%s subscribe#%d ≺ deferred-unsubscribe", k, i+1), x.pos(s), "the unsubscribe is registered after the subscription exists", "the deferred unsubscribe is not dominated by the subscribing call")
+						if !ok || !isCall {
+							continue
+						}
+						// returns reachable from the subscribe without passing the defer must be on its error edge
+						e := errNilCmp(sc)
+						e.Want = NE
+						for j, r := range prog.Returns(fn) {
+							if !prog.MayPrecede(s, r) || mustPassBetween(s, r, []ssa.Instruction{dfr}) {
+								continue
+							}
+							x.guardedSite(fmt.Sprintf("%s subscribe#%d exit#%d before-defer only-on-subscribe-error", k, i+1, j+1), r, []Cmp{e}, nil)
+						}
+					}
+					continue
+				}
+				// a helper: on every error exit after a successful subscribe, the collected subscriptions are released
+				// (single-resource helpers have nothing collected yet: their only error exits are the subscribe's own)
+				var cleanups []ssa.Instruction
+				for _, c := range prog.CallsIn(fn) {
+					for _, callee := range x.P.Callees(c) {
+						if reachesAny(callee, unsub) && !reachesAny(callee, sub) {
+							cleanups = append(cleanups, c)
+						}
+					}
+					if mc, ok := prog.Strip(c.Common().Value).(*ssa.MakeClosure); ok {
+						if f, ok := mc.Fn.(*ssa.Function); ok && reachesAny(f, unsub) {
+							cleanups = append(cleanups, c)
+						}
+					}
+					// a closure stored in a local and called
+					if prog.Reaches(c.Common().Value, func(w ssa.Value) bool {
+						mc, ok := w.(*ssa.MakeClosure)
+						if !ok {
+							return false
+						}
+						f, ok := mc.Fn.(*ssa.Function)
+						return ok && reachesAny(f, unsub)
+					}) {
+						cleanups = append(cleanups, c)
+					}
+				}
+				multi := false
+				for _, s := range subs {
+					if prog.MayPrecede(s, s) { // inside a loop
+						multi = true
+					}
+				}
+				if len(subs) > 1 {
+					multi = true
+				}
+				if !multi {
+					continue
+				}
+				n := 0
+				for _, r := range prog.Returns(fn) {
+					if prog.ReturnsNilError(r) {
+						continue
+					}
+					after := false
+					for _, s := range subs {
+						if prog.MayPrecede(s, r) {
+							after = true
+						}
+					}
+					if !after {
+						continue
+					}
+					n++
+					ok := false
+					for _, s := range subs {
+						if prog.MayPrecede(s, r) && mustPassBetween(s, r, cleanups) {
+							ok = true
+						}
+					}
+					x.check(ok, fmt.Sprintf("%s error-exit#%d releases-collected-subscriptions", k, n), x.pos(r), "already acquired subscriptions are released on this error exit",
+						"an error exit of a helper that subscribes several resources does not release the subscriptions it already holds: they stay in the map forever")
+				}
+			}
+			if owners < 2 {
+				x.C.Vacuous(x.id()+" owners of subscriptions", owners, 2)
+			}
+		}})
+}
